@@ -184,6 +184,10 @@ def check(ctx) -> None:
                 n_oa += 1
                 ctx.analysed(fn)
                 a = c.args[1]
+                if isinstance(a, ast.Name):  # a local that holds the copy
+                    ds = [n for n in own_nodes(fn) if isinstance(n, ast.Assign) and any(isinstance(t, ast.Name) and t.id == a.id for t in n.targets)]
+                    if len(ds) == 1:
+                        a = ds[0].value
                 deep = isinstance(a, ast.Call) and norm(a.func) in ("copy.deepcopy", "deepcopy")
                 ctx.check("C20.detached", c, deep, f"{qn}: the expected value of the ObjectAssertion is `{norm(a)[:50]}`, not a deep copy: a nested container that a later statement changes in place changes the recorded expectation too, and the assertion rendered for the earlier position fails", what=f"{qn}: ObjectAssertion holds copy.deepcopy(value)", stmt=f"[{qn}] ObjectAssertion value")
     if n_oa == 0:
